@@ -146,13 +146,28 @@ Definition spec_step (w : nat) (dl : N) (s : sp) (o : op) (b : obs) : sp * list 
                   end
           end
         else (match o_started b with [] => [] | _ => [17] end)
+    | OSavepoint =>
+        if sp_prev s =? 3 then
+          match o_started b with
+          | [] => match sp_infl s3 with
+                  | Some f => if o_res b =? 0 then (if o_cid b =? i_id f then [] else [17]) else []  (* folded / already a savepoint *)
+                  | None => [14]    (* nothing of this assembly in flight: the request must start a checkpoint *)
+                  end
+          | rs => match sp_cur s3 with
+                  | Some d => if nl_eqb rs (d_srs d) && (sp_maxcid s3 <? o_cid b) && (o_res b =? 0) then [] else [17]
+                  | None => [17]
+                  end
+          end
+        else (match o_started b with [] => if o_res b =? 1 then [] else [17] | _ => [17] end)
     | _ => match o_started b with [] => [] | _ => [17] end
     end in
   let s4 :=
+    let started_sp := MkSp (sp_now s3) (sp_seen s3) (sp_reg s3) (sp_pend s3) (sp_pend_latest s3) (sp_cur s3) (sp_latest s3)
+             (N.max (sp_maxcid s3) (o_cid b))
+             (match sp_cur s3 with Some d => Some (MkInfl (o_cid b) (d_ops d) (d_srs d) [] []) | None => None end) (sp_prev s3) in
     match o, o_started b, sp_cur s3 with
-    | OTick, _ :: _, Some d =>
-        MkSp (sp_now s3) (sp_seen s3) (sp_reg s3) (sp_pend s3) (sp_pend_latest s3) (sp_cur s3) (sp_latest s3)
-             (N.max (sp_maxcid s3) (o_cid b)) (Some (MkInfl (o_cid b) (d_ops d) (d_srs d) [] [])) (sp_prev s3)
+    | OTick, _ :: _, Some _ => started_sp
+    | OSavepoint, _ :: _, Some _ => started_sp
     | _, _, _ => s3
     end in
   (* 7. acks *)
